@@ -411,8 +411,99 @@ func modeSize(t *wirecodec.Table, path string, shard, nshard int, o *out) {
 	})
 }
 
+type dcase struct {
+	Ms       int64   `json:"ms"`
+	Count    int64   `json:"count"`
+	Limit    int64   `json:"limit"`
+	NameLens []int64 `json:"namelens"`
+}
+
+// modeDirFit: Treaddir with the count / msize of Version.tla's DirFitCases against a directory whose
+// entries' name lengths cycle through DirNameLens: the entries in the reply, sized by DirentSize,
+// stay within the requested count ("C01:") and the frame within the announced msize ("C13:").
+func modeDirFit(t *wirecodec.Table, path string, shard, nshard int, o *out) {
+	lines(path, shard, nshard, func(raw []byte) {
+		var c dcase
+		if err := json.Unmarshal(raw, &c); err != nil {
+			o.Findings = append(o.Findings, "bad vector: "+err.Error())
+			return
+		}
+		o.Cases++
+		auto := puppet.NewAuto()
+		defer auto.Stop()
+		auto.Answer = func(call *puppet.Call) (puppet.Result, bool) {
+			if call.K != "Readdir" {
+				return puppet.Result{}, false
+			}
+			n := int(c.Limit/25) + 4
+			ents := make(p9.Dirents, n)
+			for i := range ents {
+				l := int(c.NameLens[i%len(c.NameLens)])
+				name := []byte(fmt.Sprintf("%05d", i))
+				for len(name) < l {
+					name = append(name, 'n')
+				}
+				ents[i] = p9.Dirent{QID: p9.QID{Path: uint64(i + 10)}, Offset: uint64(i + 1), Name: string(name[:l])}
+			}
+			return puppet.Result{Res: "ok", Vals: map[string]any{"entries": ents}}, true
+		}
+		srv := p9.NewServer(&puppet.Attacher{C: auto.C})
+		rp := peer.NewRaw(t)
+		r, w := rp.ServerEnds()
+		go srv.Handle(r, w)
+		defer rp.Hangup()
+		desc := fmt.Sprintf("msize %d, Treaddir count %d", c.Ms, c.Count)
+		tag := uint16(0)
+		rpc := func(name string, v wirecodec.Values) (*wirecodec.Frame, []byte) {
+			tag++
+			rp.Send(name, tag, v)
+			b, ok, to := rp.FR.Next(5 * time.Second)
+			if to || !ok {
+				return nil, nil
+			}
+			f, _ := t.Decode(b)
+			return f, b
+		}
+		f, _ := rpc("Tversion", wirecodec.Values{"msize": uint64(c.Ms), "version": "9P2000.L"})
+		if f == nil || f.Name != "Rversion" {
+			o.Findings = append(o.Findings, desc+": negotiation failed")
+			return
+		}
+		announced := int64(wirecodec.U(f.V, "msize"))
+		nouid := uint64(0xFFFFFFFF)
+		rpc("Tattach", wirecodec.Values{"fid": 1, "afid": nouid, "uname": "", "aname": "", "n_uname": nouid})
+		rpc("Twalk", wirecodec.Values{"fid": 1, "newfid": 2, "names": []string{"d1"}})
+		if f, _ := rpc("Tlopen", wirecodec.Values{"fid": 2, "flags": 0}); f == nil || f.Name != "Rlopen" {
+			o.Findings = append(o.Findings, desc+": open failed")
+			return
+		}
+		f, b := rpc("Treaddir", wirecodec.Values{"fid": 2, "offset": 0, "count": u32(c.Count)})
+		if b == nil {
+			o.Findings = append(o.Findings, "C13: "+desc+": no reply (stream error: "+fmt.Sprint(rp.FR.Err)+")")
+			return
+		}
+		if int64(len(b)) > announced {
+			o.Findings = append(o.Findings, fmt.Sprintf("C13: %s: the server sent a frame of %d bytes, it announced msize %d", desc, len(b), announced))
+		}
+		if f == nil || f.Name != "Rreaddir" {
+			return
+		}
+		ents, _ := f.V["entries"].([]wirecodec.Values)
+		total := int64(0)
+		for _, e := range ents {
+			total += 13 + 8 + 1 + 2 + int64(len(e["name"].(string)))
+		}
+		if c.Count >= 0 && total > c.Count {
+			o.Findings = append(o.Findings, fmt.Sprintf("C01: %s: the reply carries %d entries of %d bytes in all (DirentSize), more than the requested count", desc, len(ents), total))
+		}
+		if len(o.Samples) < 1 && len(ents) > 2 {
+			o.Samples = append(o.Samples, map[string]any{"case": c, "entries": len(ents), "entry_bytes": total, "frame_bytes": len(b)})
+		}
+	})
+}
+
 func main() {
-	mode := flag.String("mode", "", "version | client | size")
+	mode := flag.String("mode", "", "version | client | size | dirfit")
 	in := flag.String("in", "", "")
 	outp := flag.String("out", "", "")
 	shard := flag.Int("shard", 0, "")
@@ -427,6 +518,8 @@ func main() {
 		modeClient(t, *in, *shard, *nshard, o)
 	case "size":
 		modeSize(t, *in, *shard, *nshard, o)
+	case "dirfit":
+		modeDirFit(t, *in, *shard, *nshard, o)
 	default:
 		fmt.Fprintln(os.Stderr, "unknown mode")
 		os.Exit(2)
